@@ -188,6 +188,14 @@ def run(ctx):
         rng.shuffle(ts)
         ts = ts[: 40 if tier == "quick" else 400] + [tuple([0] * (maxar + 2))]
         kwcases = []
+        for s in sigs[:3]:
+            if not s["kws"] and not s["vararg"]:
+                tix0 = d["sig_types"].index
+                base0 = []
+                for a in s["args"]:
+                    ks0 = [k for k in range(K) if d["isinstance"][k][tix0(a)]]
+                    base0.append(ks0[0] if ks0 else 0)
+                kwcases.append((tuple(base0), [("zzz_unknown", 0)]))
         for s in sigs:
             if not s["kws"]:
                 continue
